@@ -93,15 +93,6 @@ def check(acc, opens, src, drop_semi, origin, with_comments=False):
 def classify(src, m, drop_semi, parser_failure=None):
     """calmjs rejecting / misreading its own (valid) output is a parser-side disagreement on m:
     attribute it to a listed parser finding when the neutralised m passes the differential"""
-    if drop_semi and parser_failure is None:
-        r = pdiff.ref_parse(src)
-        if r[0] == 'ok':
-            src2, n = unparse.neutralise_textless_blocks(r[1])
-            if n:
-                scratch = Acc()
-                check(scratch, (), src2, drop_semi, 'neutralised')
-                if not scratch.failures:
-                    return 'c02.dropsemi_before_textless_block'
     if parser_failure is not None:
         from harness import findings
         f2, i2 = parser_failure
